@@ -12,33 +12,49 @@
    from the AST of ContractAPI.py / ParseAPI.py on every run.
 
    Strings (addresses, hrp) are `bytes` holding the UTF-8 text. *)
-From Coq Require Import String.
+From Coq Require Import String.   (* only for `list_byte_of_string` under `Eval`: no `string` survives in a definition *)
 From PV Require Import Base.Bytes Base.Outcome Gen.GenOpcodes Gen.GenNetworks Model.ScriptNum Model.Push.
 Local Open Scope N_scope.
 Local Open Scope outcome_scope.
 
+(* names as text bytes; evaluated here so that Coq's `string` type does not reach the extracted code *)
+Definition nm_OP_RETURN : bytes := Eval vm_compute in list_byte_of_string "OP_RETURN".
+Definition nm_OP_1 : bytes := Eval vm_compute in list_byte_of_string "OP_1".
+Definition nm_OP_16 : bytes := Eval vm_compute in list_byte_of_string "OP_16".
+Definition nm_OP_CHECKMULTISIG : bytes := Eval vm_compute in list_byte_of_string "OP_CHECKMULTISIG".
+Definition nm_p2pk : bytes := Eval vm_compute in list_byte_of_string "p2pk".
+Definition nm_p2pkh : bytes := Eval vm_compute in list_byte_of_string "p2pkh".
+Definition nm_p2pkh_wit : bytes := Eval vm_compute in list_byte_of_string "p2pkh_wit".
+Definition nm_p2sh : bytes := Eval vm_compute in list_byte_of_string "p2sh".
+Definition nm_p2sh_wit : bytes := Eval vm_compute in list_byte_of_string "p2sh_wit".
+Definition nm_p2tr : bytes := Eval vm_compute in list_byte_of_string "p2tr".
+Definition nm_multisig : bytes := Eval vm_compute in list_byte_of_string "multisig".
+Definition text_unknown : bytes := Eval vm_compute in list_byte_of_string "???".
+Definition text_nulldata_open : bytes := Eval vm_compute in list_byte_of_string "(nulldata ".
+Definition text_nulldata_close : bytes := Eval vm_compute in list_byte_of_string ")".
+
 (* ============================ ScriptTools.compile, token by token ============================ *)
 (* `self.opcode_to_int = dict(o for o in opcode_list)`: the last entry of a name wins *)
-Fixpoint opcode_by_name (t : list (string * N)) (name : string) : option N :=
+Fixpoint opcode_by_name (t : list (bytes * N)) (name : bytes) : option N :=
   match t with
   | [] => None
   | (n, v) :: r =>
     match opcode_by_name r name with
     | Some x => Some x
-    | None => if String.eqb n name then Some v else None
+    | None => if bytes_eqb n name then Some v else None
     end
   end.
 
 (* a token that is an opcode name: `f.write(bytes([self.opcode_to_int[t]]))`; an unknown OP_ name ends in
    compile_expression's SyntaxError *)
-Definition compile_opcode_name (name : string) : outcome bytes :=
-  match opcode_by_name opcode_list name with
+Definition compile_opcode_name (name : bytes) : outcome bytes :=
+  match opcode_by_name opcode_names name with
   | Some v => Ret [n2b v]
   | None => Raise E_OTHER
   end.
 
 (* a quoted token 'TEXT': compile_expression returns the text, write_push_data pushes it *)
-Definition compile_quoted (s : string) : outcome bytes := btc_compile_push_data (list_byte_of_string s).
+Definition compile_quoted (s : bytes) : outcome bytes := btc_compile_push_data s.
 
 Definition nibbles (d : bytes) : list N := flat_map (fun b => [b2n b / 16; b2n b mod 16]) d.
 Definition decimal_value (ns : list N) : Z := fold_left (fun acc n => (acc * 10 + Z.of_N n)%Z) ns 0%Z.
@@ -130,7 +146,7 @@ Definition compile_arg (a : fmt_arg) : outcome bytes :=
   end.
 
 (* `self._script_tools.compile(fmt % args)`, left to right; inl = a %s / %d slot, inr = an opcode name *)
-Fixpoint compile_format (fmt : list (bool + string)) (args : list fmt_arg) : outcome bytes :=
+Fixpoint compile_format (fmt : list (bool + bytes)) (args : list fmt_arg) : outcome bytes :=
   match fmt with
   | [] => Ret []
   | inr name :: r => do a <- compile_opcode_name name; do b <- compile_format r args; Ret (a ++ b)
@@ -141,24 +157,24 @@ Fixpoint compile_format (fmt : list (bool + string)) (args : list fmt_arg) : out
     end
   end.
 
-Fixpoint format_lookup (t : list (string * list (bool + string))) (name : string) : outcome (list (bool + string)) :=
+Fixpoint format_lookup (t : list (bytes * list (bool + bytes))) (name : bytes) : outcome (list (bool + bytes)) :=
   match t with
   | [] => Raise E_KEY
-  | (n, f) :: r => if String.eqb n name then Ret f else format_lookup r name
+  | (n, f) :: r => if bytes_eqb n name then Ret f else format_lookup r name
   end.
-Definition format_of (name : string) := format_lookup script_formats name.
+Definition format_of (name : bytes) := format_lookup script_formats name.
 
 Definition for_info (i : info) : outcome bytes :=
   match i with
-  | INulldata d => do r <- compile_opcode_name "OP_RETURN"; Ret (r ++ d)
+  | INulldata d => do r <- compile_opcode_name nm_OP_RETURN; Ret (r ++ d)
   | IUnknown s => Ret s
-  | IP2PK sec => do f <- format_of "p2pk"; compile_format f [AHex sec]
-  | IP2PKH h => do f <- format_of "p2pkh"; compile_format f [AHex h]
-  | IP2PKH_WIT h => do f <- format_of "p2pkh_wit"; compile_format f [AHex h]
-  | IP2SH h => do f <- format_of "p2sh"; compile_format f [AHex h]
-  | IP2SH_WIT h => do f <- format_of "p2sh_wit"; compile_format f [AHex h]
-  | IP2TR k => do f <- format_of "p2tr"; compile_format f [AHex k]
-  | IMultisig m keys => do f <- format_of "multisig"; compile_format f [AInt m; AHexList keys; AInt (Z.of_nat (length keys))]
+  | IP2PK sec => do f <- format_of nm_p2pk; compile_format f [AHex sec]
+  | IP2PKH h => do f <- format_of nm_p2pkh; compile_format f [AHex h]
+  | IP2PKH_WIT h => do f <- format_of nm_p2pkh_wit; compile_format f [AHex h]
+  | IP2SH h => do f <- format_of nm_p2sh; compile_format f [AHex h]
+  | IP2SH_WIT h => do f <- format_of nm_p2sh_wit; compile_format f [AHex h]
+  | IP2TR k => do f <- format_of nm_p2tr; compile_format f [AHex k]
+  | IMultisig m keys => do f <- format_of nm_multisig; compile_format f [AInt m; AHexList keys; AInt (Z.of_nat (length keys))]
   end.
 
 Definition contract_for_p2pk sec := for_info (IP2PK sec).
@@ -187,7 +203,7 @@ Definition opt_len (d : option bytes) : nat := match d with Some x => length x |
 Definition opt_bytes_eq (a b : option bytes) : bool :=
   match a, b with Some x, Some y => bytes_eqb x y | None, None => true | _, _ => false end.
 
-Fixpoint compile_template (t : list (bool * string)) : outcome bytes :=
+Fixpoint compile_template (t : list (bool * bytes)) : outcome bytes :=
   match t with
   | [] => Ret []
   | (q, s) :: r =>
@@ -231,7 +247,7 @@ Fixpoint match_loop (fuel : nat) (template script : bytes) (pc1 pc2 : nat) (r : 
 Definition match_compiled (template script : bytes) : outcome (option captures) :=
   match_loop (S (length script)) template script 0 0 [].
 
-Definition contract_match (template : list (bool * string)) (script : bytes) : outcome (option captures) :=
+Definition contract_match (template : list (bool * bytes)) (script : bytes) : outcome (option captures) :=
   do t <- compile_template template; match_compiled t script.
 
 (* `if d:` — a dict is true when it has a key *)
@@ -250,10 +266,10 @@ Definition first_of (k : cap) (d : option captures) : outcome bytes :=
   | [] => Raise E_INDEX
   end.
 
-Definition tmpl (k : nat) : list (bool * string) := nth k match_templates [].
+Definition tmpl (k : nat) : list (bool * bytes) := nth k match_templates [].
 
-Definition int_for_opcode (name : string) : outcome N :=
-  match opcode_by_name opcode_list name with Some v => Ret v | None => Raise E_TYPE end.
+Definition int_for_opcode (name : bytes) : outcome N :=
+  match opcode_by_name opcode_names name with Some v => Ret v | None => Raise E_TYPE end.
 
 (* the `while pc < len(script):` loop of _info_from_multisig_script.
    Ret None = `return None` (ScriptError); Ret (Some (opcode, pc, keys)) = state when the loop is left. *)
@@ -277,8 +293,8 @@ Fixpoint multisig_keys (fuel : nat) (script : bytes) (pc : nat) (opcode : N) (ke
   end.
 
 Definition info_from_multisig_script (script : bytes) : outcome (option info) :=
-  do op_1 <- int_for_opcode "OP_1";
-  do op_16 <- int_for_opcode "OP_16";
+  do op_1 <- int_for_opcode nm_OP_1;
+  do op_16 <- int_for_opcode nm_OP_16;
   if (length script =? 0)%nat then Ret None else
   do '(opcode, _, pc, _) <- btc_get_opcode script 0 false;
   if negb ((op_1 <=? opcode) && (opcode <? op_16)) then Ret None else
@@ -291,7 +307,7 @@ Definition info_from_multisig_script (script : bytes) : outcome (option info) :=
     let n := (Z.of_N opcode + (1 - Z.of_N op_1))%Z in
     if (n <? m)%Z || negb (Z.of_nat (length sec_keys) =? n)%Z then Ret None else
     do '(opcode, _, pc, _) <- btc_get_opcode script pc false;
-    do op_cms <- int_for_opcode "OP_CHECKMULTISIG";
+    do op_cms <- int_for_opcode nm_OP_CHECKMULTISIG;
     if negb (opcode =? op_cms) then Ret None else
     if negb (pc =? length script)%nat then Ret None else
     Ret (Some (IMultisig m sec_keys))
@@ -303,7 +319,7 @@ Definition info_step_multisig (script : bytes) : outcome info :=
   match d with Some i => Ret i | None => Ret (IUnknown script) end.
 
 Definition info_step_nulldata (script : bytes) : outcome info :=
-  do r <- compile_opcode_name "OP_RETURN";
+  do r <- compile_opcode_name nm_OP_RETURN;
   if bytes_eqb r (firstn 1 script) then Ret (INulldata (skipn 1 script)) else info_step_multisig script.
 
 Definition info_step_p2tr (script : bytes) : outcome info :=
@@ -383,7 +399,6 @@ Definition address_for_p2s (net : network) (script : bytes) : option bytes := ad
 Definition address_for_p2s_wit (net : network) (script : bytes) : outcome (option bytes) :=
   address_for_p2sh_wit net (sha256 script).
 
-Definition text_unknown : bytes := list_byte_of_string "???".
 Definition address_for_script_info (net : network) (i : info) : outcome (option bytes) :=
   match i with
   | IP2PKH h => Ret (address_for_p2pkh net h)
@@ -392,7 +407,7 @@ Definition address_for_script_info (net : network) (i : info) : outcome (option 
   | IP2PK sec => Ret (address_for_p2pkh net (hash160 sec))
   | IP2SH h => Ret (address_for_p2sh net h)
   | IP2TR k => Ret (address_for_p2tr net k)
-  | INulldata d => Ret (Some (list_byte_of_string "(nulldata " ++ b2h d ++ list_byte_of_string ")"))
+  | INulldata d => Ret (Some (text_nulldata_open ++ b2h d ++ text_nulldata_close))
   | IMultisig _ _ | IUnknown _ => Ret (Some text_unknown)
   end.
 Definition address_for_script (net : network) (script : bytes) : outcome (option bytes) :=
@@ -477,8 +492,8 @@ Definition kind_info (k : N) (payload : bytes) : info :=
   end.
 Definition kind_len (k : N) : nat := match k with 0 | 1 | 2 => 20%nat | _ => 32%nat end.
 
-Fixpoint find_network (t : list netrow) (sym : string) : option netrow :=
+Fixpoint find_network (t : list netrow) (sym : bytes) : option netrow :=
   match t with
   | [] => None
-  | n :: r => if String.eqb (nr_symbol n) sym then Some n else find_network r sym
+  | n :: r => if bytes_eqb (nr_symbol n) sym then Some n else find_network r sym
   end.
